@@ -294,8 +294,20 @@ def run_suite(suite, seqs, accept=None):
     all_pairs = []
     lines = []
     t0 = time.time()
+    unobservable = []
     for seq in seqs:
-        pairs = suite.run_real(seq)
+        try:
+            pairs = suite.run_real(seq)
+        except MachineryError:
+            raise
+        except Exception as exc:  # noqa: BLE001
+            # the harness could not observe the implementation on this sequence (it never happens on the
+            # unchanged tree): the correspondence cannot be checked there, which is a broken tie, not a crash
+            import traceback
+
+            where = traceback.extract_tb(exc.__traceback__)[-1]
+            unobservable.append(Disagreement(suite.name, seq, 0, "<observation failed>", ["observation"], {"observation": f"{type(exc).__name__}: {exc} at {os.path.basename(where.filename)}:{where.lineno}"}, {"observation": "ok"}))
+            pairs = []
         all_pairs.append(pairs)
         lines.append("reset")
         lines.extend(p[0] for p in pairs)
@@ -303,7 +315,7 @@ def run_suite(suite, seqs, accept=None):
     t0 = time.time()
     replies = run_driver(lines)
     t_model = time.time() - t0
-    out = []
+    out = list(unobservable[:3])
     pos = 0
     nontrivial = set()
     n_lines = 0
